@@ -72,6 +72,10 @@ class Project(object):
     def check_changes(self):
         # type: () -> t.Iterator[None]
         self._context_cache.clear()
+        if any(m.changed for m in self._module_cache.values()):
+            # cached analyses hold references into each other (star imports,
+            # resolved imported names), so a change anywhere drops them all
+            self._module_cache.clear()
         yield
 
     def get_nmodule(self, name, filename):
